@@ -39,7 +39,7 @@ CONSTANTS
   HashSel,    \* 1 | 2 : which abstract hash the primary NSEC3 chain uses
   Collide,    \* <<>> or <<x, y>> : hash of name x is forced onto that of y
   Part,       \* "sound" | "cache"
-  MaxClock, MaxAdmits, AdmitSub,
+  MaxClock, MaxAdmits, AdmitSub, MinimalProofs,
   EmitCases   \* TRUE: print zones / cases as JSON for the conformance driver
 
 VARIABLES zid, fam, phase, sub, q, vs, ag,         \* part 1 (vs/ag: what the rules conclude for sub, q)
@@ -357,13 +357,25 @@ NoCall     == [op |-> "none"]
 Live(i, c) == { r \in DOMAIN i : i[r] > c }
 LiveCuts   == { n \in DOMAIN cuts : cuts[n] > clock }
 
-\* what the resolver gate lets through to the shared caches: exact verdict is
-\* secure, the RFC 8198 classifier reaches the same rcode, NXDOMAIN/NODATA only
+\* what the resolver gate lets through to the shared caches: the exact verdict
+\* is secure AND the RFC 8198 classifier reaches the same rcode
 Rcode(v) == IF v = "nxdomain" THEN "NX" ELSE "ND"
-GateAdmits(S, qq) ==
-  { v \in {"nxdomain", "nodata", "wildcard-nodata", "insecure-delegation"} :
-       /\ Vd(v, TRUE) \in Verdicts(fam, S, qq)
-       /\ \E a \in AggVerdicts(fam, S, qq) : Rcode(a) = Rcode(v) }
+NegV     == {"nxdomain", "nodata", "wildcard-nodata", "insecure-delegation"}
+GateAdmits(f, S, qq) ==
+  { v \in NegV : /\ Vd(v, TRUE) \in Verdicts(f, S, qq)
+                 /\ \E a \in AggVerdicts(f, S, qq) : Rcode(a) = Rcode(v) }
+
+\* admissible proofs <<G, question, verdict>> per zone and family, computed once;
+\* MinimalProofs keeps only proofs none of whose proper subsets proves the same
+AdmitTab ==
+  IF Part # "cache" THEN <<>>
+  ELSE [z \in Zones |-> [f \in Families |->
+         LET cand == (SubsetsUpTo(Genuine(z, f), AdmitSub) \ {{}}) \X Queries
+             all  == { <<c[1], c[2], v>> : c \in cand, v \in NegV }
+             ok   == { t \in all : t[3] \in GateAdmits(f, t[1], t[2]) }
+         IN  IF MinimalProofs
+             THEN { t \in ok : ~\E u \in ok : u[2] = t[2] /\ u[3] = t[3] /\ u[1] # t[1] /\ u[1] \subseteq t[1] }
+             ELSE ok ]]
 
 SynthOf(i, sx, cs, c, qq) ==
   IF \E n \in { m \in DOMAIN cs : cs[m] > c } : IsPrefix(n, qq.name) THEN {"nxdomain"}
@@ -392,10 +404,9 @@ Query(qq) ==
   /\ vs' = Verdicts(fam, sub, qq) /\ ag' = AggVerdicts(fam, sub, qq)
   /\ UNCHANGED <<zid, fam, sub>> /\ CacheUnchanged
 
-Admit(G, qq, L) ==
+Admit(G, qq, v, L) ==
   /\ Part = "cache" /\ turn = "admit" /\ nadm < MaxAdmits
-  /\ GateAdmits(G, qq) # {}
-  /\ LET v == CHOOSE w \in GateAdmits(G, qq) : TRUE IN
+  /\ LET dummy == TRUE IN
        /\ idx' = [r \in (DOMAIN idx) \cup G |-> IF r \in G THEN clock + L ELSE idx[r]]
        /\ soaExp' = clock + L
        /\ cuts' = IF v = "nxdomain"
@@ -425,7 +436,7 @@ Next ==
   \/ /\ Part = "sound" /\ phase = "picked"
      /\ \E qq \in Queries : Query(qq)
   \/ /\ Part = "cache" /\ turn = "admit" /\ nadm < MaxAdmits
-     /\ \E G \in (SubsetsUpTo(GenuineSet, AdmitSub) \ {{}}), qq \in Queries, L \in {1, 2} : Admit(G, qq, L)
+     /\ \E t \in AdmitTab[zid][fam], L \in {1, 2} : Admit(t[1], t[2], t[3], L)
   \/ Expire
   \/ /\ Part = "cache" /\ turn = "synth"
      /\ \E qq \in Queries : Synthesise(qq)
@@ -436,12 +447,6 @@ Spec == Init /\ [][Next]_vars
 \* the VIEW, so this is an action property)
 SynthTrue(qq, out) == Cardinality(out) <= 1 /\ \A v \in out : TruthOf(zid, qq) = v
 SynthesisedIsTrue == [][last'.op = "synth" => SynthTrue(last'.q, synth')]_vars
-\* nothing is synthesised from a zone whose SOA entry has expired, nor from expired records
-NoStaleSynthesis ==
-  [][(last'.op = "synth" /\ synth' # {}) =>
-        \/ \E n \in LiveCuts : IsPrefix(n, last'.q.name)
-        \/ (soaExp > clock /\ synth' \subseteq AggVerdicts(fam, Live(idx, clock), last'.q))]_vars
-
 TypeOK ==
   /\ zid \in Zones /\ fam \in Families /\ phase \in {"zone", "picked", "asked"}
   /\ clock \in 0..MaxClock /\ nadm \in 0..MaxAdmits /\ turn \in TurnSet
